@@ -7,11 +7,13 @@ package raft
 // the real files.
 
 import (
+	"bytes"
 	"crypto/sha256"
 	"encoding/hex"
 	"fmt"
 	"sort"
 	"strings"
+	"sync"
 )
 
 type entryRec struct {
@@ -57,6 +59,8 @@ type ledger struct {
 	ldrLog   map[int]*ldrLogRec
 	configs  map[uint64]string // index -> canonical config (from committed entries)
 
+	roundDone map[[3]uint64]uint64 // (leader, term, node) -> LastIndex of the last completed round
+
 	prev []nodeSnap
 	viol []simViolation
 	seenViol map[string]bool
@@ -79,7 +83,7 @@ type ldrLogRec struct {
 }
 
 func newLedger(w *world) *ledger {
-	return &ledger{
+	l := &ledger{
 		w:         w,
 		leaderOf:  map[uint64]uint64{},
 		committed: map[uint64]entryRec{},
@@ -94,7 +98,10 @@ func newLedger(w *world) *ledger {
 		configs:   map[uint64]string{},
 		seenViol:  map[string]bool{},
 		oracles:   map[string]bool{},
+		roundDone: map[[3]uint64]uint64{},
 	}
+	l.installTracer()
+	return l
 }
 
 func (l *ledger) violate(oracle, key, desc string) {
@@ -196,6 +203,40 @@ func simErrClass(err error) string {
 	}, s)
 }
 
+// installTracer hooks the library's own tracer callbacks (they run inside the
+// step, on the raft goroutine, at the instant of the decision).
+func (l *ledger) installTracer() {
+	tracer.configActionStarted = func(r *Raft, id uint64, action Action) {
+		n := simLookup(r)
+		if n == nil || n.w != l.w {
+			return
+		}
+		if action == Promote && r.state == Leader {
+			repl := r.ldr.repls[id]
+			if repl == nil {
+				return
+			}
+			st := &repl.status
+			// C11: promoted only after its log caught up with the leader's in a completed round
+			// (some round of this leadership was completed, and the node still holds what that round demanded)
+			done, ok := l.roundDone[[3]uint64{n.id, r.term, id}]
+			if !ok || st.matchIndex < done {
+				l.violate("promote", "promoted-before-caught-up", fmt.Sprintf("leader %d (term %d) promotes node %d with matchIndex %d; completed round: %v (lastIndex %d); current %v", n.id, r.term, id, st.matchIndex, ok, done, st.round))
+			}
+		}
+	}
+	tracer.roundCompleted = func(r *Raft, id uint64, rd round) {
+		if n := simLookup(r); n != nil && n.w == l.w {
+			l.roundDone[[3]uint64{n.id, r.term, id}] = rd.LastIndex
+		}
+	}
+	tracer.logCompacted = func(r *Raft) {
+		if n := simLookup(r); n != nil && n.w == l.w {
+			l.stats.compactions++
+		}
+	}
+}
+
 func (l *ledger) onLeaderAct(n *simNode, term uint64, what string) {
 	l.claimLeader(term, n.id, what)
 }
@@ -229,16 +270,18 @@ func (l *ledger) beforeEvent(e simEvent) {
 }
 
 type deliverCtx struct {
-	leader uint64
-	term   uint64
-	state  State
+	leader  uint64
+	term    uint64
+	state   State
+	voter   bool
+	pending *pendingReq
 }
 
 var simDeliverCtx deliverCtx
 
 func (l *ledger) beforeDeliver(dst *simNode, c *simConn, req request, dup bool) {
 	r := dst.r
-	simDeliverCtx = deliverCtx{leader: r.leader, term: r.term, state: r.state}
+	simDeliverCtx = deliverCtx{leader: r.leader, term: r.term, state: r.state, voter: r.configs.Latest.isVoter(r.nid)}
 }
 
 func (l *ledger) afterDeliver(dst *simNode, c *simConn, rp *rpc, dup bool) {
@@ -260,13 +303,13 @@ func (l *ledger) afterDeliver(dst *simNode, c *simConn, rp *rpc, dup bool) {
 			// C05: a granted vote for the requested term is durable now
 			val, err := openValue(dst.dir, ".term")
 			if err != nil {
-				l.violate("vote", "grant-unreadable", fmt.Sprintf("node %d granted a vote but its term file cannot be read: %v", dst.id, err))
+				l.violate("votedurable", "grant-unreadable", fmt.Sprintf("node %d granted a vote but its term file cannot be read: %v", dst.id, err))
 			} else if t, v := val.get(); t != req.term || v != req.src {
 				key := "grant-not-durable"
 				if !req.transfer && pre.leader != 0 && req.src == pre.leader {
 					key = "grant-not-durable:src==known-leader"
 				}
-				l.violate("vote", key, fmt.Sprintf("node %d replied success to vote request (term %d, candidate %d) but its durable (term,vote) is (%d,%d)", dst.id, req.term, req.src, t, v))
+				l.violate("votedurable", key, fmt.Sprintf("node %d replied success to vote request (term %d, candidate %d) but its durable (term,vote) is (%d,%d)", dst.id, req.term, req.src, t, v))
 			}
 			k := [2]uint64{dst.id, req.term}
 			if prevC, ok := l.votes[k]; ok && prevC != req.src {
@@ -284,10 +327,25 @@ func (l *ledger) afterDeliver(dst *simNode, c *simConn, rp *rpc, dup bool) {
 				l.violate("stability", "term-raised-while-leader-known", fmt.Sprintf("node %d following leader %d raised its term %d->%d on a vote request of %d (no transfer flag)", dst.id, pre.leader, pre.term, r.term, req.src))
 			}
 		}
+	case *timeoutNowReq:
+		// C11: a node that is not a voter in its own latest configuration refuses to time out now
+		if !simDeliverCtx.voter && rp.resp.getResult() == success {
+			l.violate("nonvoter", "timeoutnow-accepted-by-nonvoter", fmt.Sprintf("node %d is not a voter in its latest config but accepted a timeout-now request of %d", dst.id, req.src))
+		}
 	case *appendReq:
-		if rp.resp.getResult() == success && rp.readErr == nil {
-			if ar, ok := rp.resp.(*appendResp); ok {
-				_ = ar
+		// C06: an acknowledged append is already flushed (survives a crash now)
+		if l.oracles["durable"] && rp.resp.getResult() == success && rp.readErr == nil && !dup {
+			if p := simDeliverCtx.pending; p != nil && p.nEntries > 0 {
+				img := l.w.copyDir(dst.dir)
+				st, err := openStorage(img, l.w.raftOptions())
+				if err != nil {
+					l.violate("durable", "ack-image-unopenable", fmt.Sprintf("node %d acknowledged entries up to %d but a copy of its directory cannot be opened: %v", dst.id, p.lastIdx, err))
+				} else {
+					if st.lastLogIndex < p.lastIdx {
+						l.violate("durable", "ack-before-flush", fmt.Sprintf("node %d acknowledged entries up to %d but after a crash now its log ends at %d", dst.id, p.lastIdx, st.lastLogIndex))
+					}
+					_ = st.log.Close()
+				}
 			}
 		}
 	}
@@ -315,16 +373,61 @@ func (l *ledger) afterEvent(e simEvent) {
 	l.checkTasks()
 }
 
+type cachedEntry struct {
+	e   *entry
+	rec entryRec
+}
+
+var (
+	simRecMu    sync.Mutex
+	simRecCache = map[string]*cachedEntry{}
+)
+
+// entryAt reads entry i of n's log.  Decoded entries are cached by their raw
+// bytes (an entry is immutable once encoded).
 func (l *ledger) entryAt(n *simNode, i uint64) (*entry, bool) {
+	ce := l.cachedAt(n, i)
+	if ce == nil {
+		return nil, false
+	}
+	return ce.e, true
+}
+
+func (l *ledger) cachedAt(n *simNode, i uint64) *cachedEntry {
 	r := n.r
 	if i <= r.log.PrevIndex() || i > r.lastLogIndex {
-		return nil, false
+		return nil
+	}
+	b, err := r.log.Get(i)
+	if err != nil {
+		return nil
+	}
+	simRecMu.Lock()
+	ce := simRecCache[string(b)]
+	simRecMu.Unlock()
+	if ce != nil {
+		return ce
 	}
 	e := &entry{}
-	if err := r.storage.getEntry(i, e); err != nil {
-		return nil, false
+	if err := e.decode(bytes.NewReader(b)); err != nil || e.index != i {
+		return nil
 	}
-	return e, true
+	ce = &cachedEntry{e: e, rec: recOf(e)}
+	simRecMu.Lock()
+	if len(simRecCache) > 100000 {
+		simRecCache = map[string]*cachedEntry{}
+	}
+	simRecCache[string(b)] = ce
+	simRecMu.Unlock()
+	return ce
+}
+
+func (l *ledger) recAt(n *simNode, i uint64) (entryRec, *entry, bool) {
+	ce := l.cachedAt(n, i)
+	if ce == nil {
+		return entryRec{}, nil, false
+	}
+	return ce.rec, ce.e, true
 }
 
 func (l *ledger) scanNode(n *simNode) {
@@ -349,6 +452,10 @@ func (l *ledger) scanNode(n *simNode) {
 			}
 		}
 	}
+	// C11: a leader that demoted or removed itself stops leading once that change is committed
+	if r.state == Leader && r.configs.IsCommitted() && !r.configs.Committed.isVoter(r.nid) {
+		l.violate("nonvoter", "leader-not-voter-in-committed-config", fmt.Sprintf("node %d still leads term %d although its committed config %d {%s} does not list it as voter", n.id, r.term, r.configs.Committed.Index, canonConfig(r.configs.Committed)))
+	}
 	// term monotone per incarnation / durable
 	if r.term < l.maxTermReported[n.id] {
 		l.violate("term", "term-regressed", fmt.Sprintf("node %d has term %d after having reported %d", n.id, r.term, l.maxTermReported[n.id]))
@@ -366,12 +473,11 @@ func (l *ledger) scanNode(n *simNode) {
 	}
 	var hashes []string
 	for i := prevIdx + 1; i <= r.lastLogIndex; i++ {
-		e, ok := l.entryAt(n, i)
+		rec, e, ok := l.recAt(n, i)
 		if !ok {
 			l.violate("alive", "log-entry-unreadable", fmt.Sprintf("node %d: entry %d in (%d,%d] cannot be read", n.id, i, prevIdx, r.lastLogIndex))
 			break
 		}
-		rec := recOf(e)
 		k := [2]uint64{i, e.term}
 		if old, ok := l.seen[k]; ok {
 			if old != rec {
@@ -434,11 +540,10 @@ func (l *ledger) scanNode(n *simNode) {
 		l.violate("info", "commit-beyond-log", fmt.Sprintf("node %d: commitIndex %d > lastLogIndex %d", n.id, r.commitIndex, r.lastLogIndex))
 	}
 	for i := prevIdx + 1; i <= r.commitIndex && i <= r.lastLogIndex; i++ {
-		e, ok := l.entryAt(n, i)
+		rec, e, ok := l.recAt(n, i)
 		if !ok {
 			break
 		}
-		rec := recOf(e)
 		if old, ok := l.committed[i]; ok {
 			if old != rec {
 				l.violate("commit", "committed-entry-differs", fmt.Sprintf("index %d committed as %v but node %d has committed %v", i, old, n.id, rec))
@@ -652,19 +757,52 @@ func (l *ledger) checkInfo(n *simNode) {
 }
 
 // L-durable (C06): at the instant an index is first seen committed, every
-// directory is copied ("all nodes crash now") and reopened.
+// directory is copied ("all nodes crash now") and reopened.  The configuration
+// in force at the commit is the newest configuration entry of the committing
+// node's log at that moment; a step may append further entries after the
+// commit, so every log length between the one before the step (but at least
+// the committed index) and the current one is a candidate and a violation is
+// reported only if no candidate explains the commit.
 func (l *ledger) checkDurable(by *simNode, index, term uint64) {
 	w := l.w
-	// configuration in force: the committing node's latest configuration
-	cfg := by.r.configs.Latest
-	voters, have := 0, 0
+	r := by.r
+	lo := index
+	if by.idx < len(l.prev) {
+		if p := l.prev[by.idx]; p.up && p.inc == by.inc && p.lastLogIndex > lo {
+			lo = p.lastLogIndex
+		}
+	}
+	// candidate configurations
+	var cands []Config
+	seenCfg := map[uint64]bool{}
+	for L := lo; L <= r.lastLogIndex; L++ {
+		var cfg Config
+		found := false
+		for j := L; j > r.log.PrevIndex(); j-- {
+			if e, ok := l.entryAt(by, j); ok && e.typ == entryConfig {
+				if cfg.decode(e) == nil {
+					found = true
+				}
+				break
+			}
+		}
+		if !found {
+			if m, err := r.snaps.meta(); err == nil && m.config.Index > 0 {
+				cfg, found = m.config, true
+			}
+		}
+		if found && !seenCfg[cfg.Index] {
+			seenCfg[cfg.Index] = true
+			cands = append(cands, cfg)
+		}
+	}
+	if len(cands) == 0 {
+		cands = append(cands, r.configs.Latest)
+	}
+	// which nodes hold the entry durably
+	holds := map[uint64]bool{}
 	var detail []string
 	for _, n := range w.nodes {
-		nd, ok := cfg.Nodes[n.id]
-		if !ok || !nd.Voter {
-			continue
-		}
-		voters++
 		img := w.copyDir(n.dir)
 		st, err := openStorage(img, w.raftOptions())
 		if err != nil {
@@ -681,14 +819,27 @@ func (l *ledger) checkDurable(by *simNode, index, term uint64) {
 			}
 		}
 		detail = append(detail, fmt.Sprintf("n%d:last=%d,has=%v", n.id, st.lastLogIndex, ok2))
-		if ok2 {
-			have++
-		}
+		holds[n.id] = ok2
 		_ = st.log.Close()
 	}
-	if voters > 0 && have < voters/2+1 {
-		l.violate("durable", fmt.Sprintf("committed-not-durable-on-majority:%dof%d", have, voters), fmt.Sprintf("index %d (term %d) reported committed by node %d under config {%s} is durable on %d of %d voters [%s]", index, term, by.id, canonConfig(cfg), have, voters, strings.Join(detail, " ")))
+	var worst string
+	for _, cfg := range cands {
+		voters, have := 0, 0
+		for id, nd := range cfg.Nodes {
+			if nd.Voter {
+				voters++
+				if holds[id] {
+					have++
+				}
+			}
+		}
+		if voters == 0 || have >= voters/2+1 {
+			return // explained
+		}
+		worst = fmt.Sprintf("%dof%d under config %d {%s}", have, voters, cfg.Index, canonConfig(cfg))
 	}
+	parts := strings.SplitN(worst, " ", 2)
+	l.violate("durable", "committed-not-durable-on-majority:"+parts[0], fmt.Sprintf("index %d (term %d) reported committed by node %d is durable on %s [%s]", index, term, by.id, worst, strings.Join(detail, " ")))
 }
 
 // L-alive: tasks complete at most once
